@@ -50,6 +50,7 @@ func registerModels(e *Engine) {
 
 func registerVerifModels(e *Engine) {
 	own := func(name string, m modelFn) { e.models["own:"+name] = m }
+	registerRaceModels(e, own)
 	nd := func(kind string, w int) modelFn {
 		return func(fr *frame, fn *ssa.Function, args []value) value {
 			k := basicKind(fn.Signature.Results().At(0).Type())
